@@ -210,7 +210,13 @@ theorem format_eq_of_same_class (W : Walker) (n : Nat) (o : Pretty.Opts) (r : Re
     the second formatted text differ only by a gap-class preserving move of their tokens. This is the
     case the check meets on the real formatter: where pass 1 and pass 2 differ at all (finding #16), they
     differ in the lengths of space runs inside lines only — every token keeps its line (`φ = id`), only
-    columns change — and pass 3 equals pass 2. -/
+    columns change — and pass 3 equals pass 2.
+    Where the hypothesis FAILS (the changed paddings make a group fit or not fit, so pass 2 also moves line
+    breaks) the theorem says nothing, and the real formatter indeed shows every other behaviour: a fixed point
+    only at pass 3 or later, and cycles (pass 3 = pass 1 ≠ pass 2) with no fixed point at all — recorded by
+    `checks/c08.py` as the findings `aligner:source-line-gap-grouping:{padding-changes-line-breaks,
+    late-fixed-point, oscillation}`, each with the per-case evidence that the Docs of all passes are equal up to
+    pad nodes and that M-Aligner / M-Pretty reproduce the paddings and the text of every pass. -/
 theorem C08_second_pass_fixed_partial (W : Walker) (n : Nat) (o : Pretty.Opts) (r : Ren) (P : Nat → Prop)
     (h : r.OK P) (hinj : ∀ a b, r.ρ a = r.ρ b → a = b) (s : List Char)
     (hops : ∀ op ∈ W.trace (W.format n o s), op.LinesIn P)
